@@ -408,4 +408,12 @@ def rule_restart_guard(ctx: Ctx):
     c11.rule_guard(ctx, rule="C17.steps")
 
 
-RULES = [rule_carry, rule_excluded, rule_steps, rule_attach, rule_first_attachment, rule_no_snapshot, rule_restart_guard]
+def rule_bound_triggers(ctx: Ctx):
+    """C17.carry: triggers bound onto the model are BoundEvents holding the machine itself: copy/pickle remap them to the
+    clone's machine (a weak proxy or a closure would be rebuilt as a phantom machine, or keep pointing at the original)."""
+    from . import c13
+
+    c13.rule_bind(ctx, rule="C17.carry")
+
+
+RULES = [rule_carry, rule_excluded, rule_steps, rule_attach, rule_first_attachment, rule_no_snapshot, rule_restart_guard, rule_bound_triggers]
